@@ -273,6 +273,23 @@ NODESCAN = {
              _l("applications", "apply_timestep(timestep=timestep)"): ("emit", 11, []), "self.file_system.apply_timestep": ("emit", 12, [])}},
  ]}
 
+# ---- accounts and sessions ----
+BASE = "src/primaite/simulator/network/hardware/base.py"
+TERM = "src/primaite/simulator/system/services/terminal/terminal.py"
+SESSION = {
+ "enum_files": [],
+ "methods": [
+  {"path": BASE, "cls": "UserManager", "fn": "authenticate_user", "ret": "bool", "drop_params": ["username", "password"],
+   "erase_locals": ["user"], "returns": {"user": ("true", "bool"), "None": ("false", "bool")},
+   "calls": {"self._can_perform_action": ("oracle", "can_act", "bool")},
+   "exprs": {"user": ("user_exists", "bool"), "user.disabled": ("user_disabled", "bool"), "user.password == password": ("password_matches", "bool")}},
+  {"path": BASE, "cls": "UserSessionManager", "fn": "remote_session_limit_reached", "ret": "bool",
+   "exprs": {"len(self.remote_sessions)": ("remote_session_count", "Z")}},
+  {"path": TERM, "cls": "Terminal", "fn": "_check_client_connection", "ret": "bool", "drop_params": ["connection_id"],
+   "calls": {"self.parent.user_session_manager.validate_remote_session_uuid": ("oracle", "session_is_live", "bool"), "self._disconnect": ("emit", 1, [])},
+   "exprs": {"connection_id in self._connections": ("connection_is_known", "bool")}},
+ ]}
+
 GROUPS = {
  "software": dict(SOFTWARE, gen="Gen/GenSoftware.v", eq="Proofs/GenEqSoftware.vo"),
  "killchain": dict(KILLCHAIN, gen="Gen/GenKillChain.v", eq="Proofs/GenEqKillChain.vo"),
@@ -289,6 +306,7 @@ GROUPS = {
  "pretick": dict(PRETICK, gen="Gen/GenPreTick.v", eq="Proofs/GenEqPreTick.vo"),
  "nmneobs": dict(NMNEOBS, gen="Gen/GenNmneObs.v", eq="Proofs/GenEqNmneObs.vo"),
  "nodescan": dict(NODESCAN, gen="Gen/GenNodeScan.v", eq="Proofs/GenEqNodeScan.vo"),
+ "sessiongate": dict(SESSION, gen="Gen/GenSession.v", eq="Proofs/GenEqSession.vo"),
 }
 for _g in GROUPS.values():
     _g["functions"] = ["%s.%s" % (m["cls"], m["fn"]) for m in _g["methods"]]
